@@ -166,21 +166,39 @@ def split_lines(path, n, outdir, stem):
         paths.append((p, [i for i, _ in sh_]))
     return paths, len(lines)
 
-def run_parallel(cmds, timeout):
-    procs = []
-    for cmd, env, so, se in cmds:
-        e = dict(os.environ)
-        e.update(env)
-        procs.append(subprocess.Popen(cmd, env=e, stdout=open(so, "w"), stderr=open(se, "w")))
+def run_parallel(cmds, timeout, width=None):
+    """Run the commands, at most [width] at a time (default: all at once); return their exit codes in order."""
+    width = width or len(cmds) or 1
     deadline = time.time() + timeout
-    rcs = []
-    for p in procs:
-        try:
-            rcs.append(p.wait(timeout=max(1, deadline - time.time())))
-        except subprocess.TimeoutExpired:
-            p.kill()
-            rcs.append(-9)
+    rcs = [None] * len(cmds)
+    running = {}   # index -> Popen
+    nxt = 0
+    while nxt < len(cmds) or running:
+        while nxt < len(cmds) and len(running) < width:
+            cmd, env, so, se = cmds[nxt]
+            e = dict(os.environ)
+            e.update(env)
+            running[nxt] = subprocess.Popen(cmd, env=e, stdout=open(so, "w"), stderr=open(se, "w"))
+            nxt += 1
+        done = [k for k, p in running.items() if p.poll() is not None]
+        for k in done:
+            rcs[k] = running.pop(k).returncode
+        if time.time() > deadline:
+            for k, p in running.items():
+                p.kill()
+                p.wait()
+                rcs[k] = -9
+            running = {}
+            for k in range(nxt, len(cmds)):
+                rcs[k] = -9
+            nxt = len(cmds)
+        elif not done:
+            time.sleep(0.02)
     return rcs
+
+# suites whose cases leave sockets and threads behind in the harness process (in-process servers never end):
+# few cases per process, so that the ephemeral port range is never exhausted
+SOCKET_SUITES = {"srv": 150, "conc": 60, "cli": 150, "bin": 100}
 
 def merge(paths_idx, suffix_from, suffix_to, total):
     res = [""] * total
@@ -236,13 +254,18 @@ def run_suite(suite, seed, tier, count, extra_cases=None, timeout=None, profile=
     with open(allcases, "w") as f:
         for l in corpus + (extra_cases or []) + generated:
             f.write(l + "\n")
-    shards, total = split_lines(allcases, NPROC, cdir, "s")
+    nshards = NPROC
+    if suite in SOCKET_SUITES:
+        with open(allcases) as f:
+            ncases = sum(1 for _ in f)
+        nshards = max(NPROC, -(-ncases // SOCKET_SUITES[suite]))
+    shards, total = split_lines(allcases, nshards, cdir, "s")
     cmds = []
     for p, _ in shards:
         base = p[: -len(".cases")]
         cmds.append(([hb, "run", p, base + ".impl", base + ".scratch"],
                      dict({"VERIF_STDOUT": base + ".out", "VERIF_STDERR": base + ".err"}, **binenv), base + ".out", base + ".err"))
-    rcs = run_parallel(cmds, timeout)
+    rcs = run_parallel(cmds, timeout, width=NPROC)
     if any(rc != 0 for rc in rcs):
         # a harness process that dies (abort, stack overflow, kill) is an observation about the implementation,
         # not a machinery error: its unfinished cases read "<missing>" and show up as disagreements
@@ -253,7 +276,7 @@ def run_suite(suite, seed, tier, count, extra_cases=None, timeout=None, profile=
         base = p[: -len(".cases")]
         cmds.append((["bash", "-c", f"ulimit -s unlimited 2>/dev/null || ulimit -s 1000000; exec {drv} {p} {base}.model"],
                      {}, base + ".dout", base + ".derr"))
-    rcs = run_parallel(cmds, timeout)
+    rcs = run_parallel(cmds, timeout, width=NPROC)
     if any(rc != 0 for rc in rcs):
         raise MachineryError(f"model driver failed on suite {suite}: rcs={rcs}")
     impl = merge(shards, ".cases", ".impl", total)
